@@ -33,7 +33,7 @@ META = dict(
          "near rule.",
     design_ref="4/C10")
 
-KINDS_Q = ["near", "ladder", "sized", "two", "half", "wrong", "tf5", "spot", "big", "fast", "fast2", "iso", "tf15", "tf60", "over", "tiny", "near"]
+KINDS_Q = ["near", "ladder", "sized", "two", "half", "wrong", "tf5", "spot", "big", "fast", "fast2", "iso", "tf15", "tf60", "over", "tiny", "near", "pyramid", "pyramid"]
 
 
 def run(ctx):
@@ -91,7 +91,7 @@ def run(ctx):
         samples.append({"kind": "R: model behaviour replayed on the real Strategy", "actions": [a["a"] for a in sim_items[t0["id"] - 200000]["hist"]],
                         "events": [{k: v for k, v in e.items() if k != "act"} for e in t0["ev"][:14]]})
     # ---------------------------------------------------------------- T
-    items = K.vivo_items(ctx, ctx.pick(150, 1500), KINDS_Q, ctx.pick(240, 400))
+    items = K.vivo_items(ctx, ctx.pick(152, 1500), KINDS_Q, ctx.pick(240, 400))
     traces, by_id = K.run_vivo(ctx, items)
     bad_t, st_t = K.judge(ctx, "TraceRouting", traces, "T", by_id, parts=ctx.pick(8, 14))
     nsub = sum(x[2] for x in st_t)
